@@ -120,9 +120,13 @@ func modularBody() func(*engine.X) {
 		}
 		crtBased := im.kind > 0
 		red := func(v *big.Int) *big.Int { return new(big.Int).Mod(v, nv) }
-		as := im.operands(300)
+		lim := int64(300)
+		if engine.Thorough() {
+			lim = 1300 // includes the full multiplication table modulo 35^2
+		}
+		as := im.operands(lim)
 		bs := as
-		if !(nv.IsInt64() && nv.Int64() <= 300) {
+		if !(nv.IsInt64() && nv.Int64() <= lim) {
 			bs = im.operands(0)
 		}
 		if part == 0 {
